@@ -29,6 +29,8 @@
 #include "dma.h"
 #include "icu.h"
 #include "timer.h"
+#include "test.h"
+#include "test_generator.h"
 #include "mmio.cpp" // for MMIORegion::Impl / Cell (this TU replaces the library's mmio.o)
 
 using namespace Teakra;
@@ -141,6 +143,11 @@ int main(int argc, char** argv) {
     }
     (void)generator_shape;
 
+    if (a.mode.rfind("genmake:", 0) == 0) {     // the project's own hardware-test generator writes its vectors
+        bool ok = Teakra::Test::GenerateTestCasesToFile(a.mode.substr(8).c_str());
+        o.close();
+        return ok ? 0 : 3;
+    }
     Machine m;
     u64 memseed = a.seed * 7919 + 13;
     for (u32 w = 0; w < 0x40000; ++w) {
@@ -150,11 +157,56 @@ int main(int argc, char** argv) {
     }
     verif_mem_observer = &m.log;
 
+    // C01 generator clause: --mode genfile:<path>:<part>/<parts>  real GenerateTestCasesToFile vectors, loaded
+    // the way src/test_verifier/main.cpp loads them
+    std::FILE* genf = nullptr;
+    unsigned gpart = 0, gparts = 1;
+    long gindex = 0;
+    if (a.mode.rfind("genfile:", 0) == 0) {
+        std::strcpy(kind, "gen");
+        std::string rest = a.mode.substr(8);
+        std::string path = rest.substr(0, rest.find(':'));
+        std::sscanf(rest.substr(rest.find(':') + 1).c_str(), "%u/%u", &gpart, &gparts);
+        genf = std::fopen(path.c_str(), "rb");
+        if (!genf) { std::perror(path.c_str()); return 2; }
+        words.clear();
+        k = 1;
+        TestCase tc;
+        long idx = 0;
+        while (std::fread(&tc, sizeof(tc), 1, genf) == 1) { if (idx % gparts == gpart) words.push_back((unsigned)idx); ++idx; }
+    }
     std::vector<int> pre(NREG), post(NREG);
     for (unsigned w : words) {
         for (unsigned rep = 0; rep < k; ++rep) {
+            TestCase tc;
+            bool gen = genf != nullptr;
+            if (gen) {
+                std::fseek(genf, (long)w * (long)sizeof(TestCase), SEEK_SET);
+                if (std::fread(&tc, sizeof(tc), 1, genf) != 1) break;
+                (void)gindex;
+                RegisterState& regs = m.regs;
+                regs.Reset();
+                regs.a = tc.before.a; regs.b = tc.before.b; regs.p = tc.before.p; regs.r = tc.before.r;
+                regs.x = tc.before.x; regs.y = tc.before.y;
+                regs.stepi0 = tc.before.stepi0; regs.stepj0 = tc.before.stepj0; regs.mixp = tc.before.mixp;
+                regs.sv = tc.before.sv; regs.repc = tc.before.repc; regs.Lc() = tc.before.lc;
+                regs.Set<cfgi>(tc.before.cfgi); regs.Set<cfgj>(tc.before.cfgj);
+                regs.Set<stt0>(tc.before.stt0); regs.Set<stt1>(tc.before.stt1); regs.Set<stt2>(tc.before.stt2);
+                regs.Set<mod0>(tc.before.mod0); regs.Set<mod1>(tc.before.mod1); regs.Set<mod2>(tc.before.mod2);
+                regs.Set<ar0>(tc.before.ar[0]); regs.Set<ar1>(tc.before.ar[1]);
+                regs.Set<arp0>(tc.before.arp[0]); regs.Set<arp1>(tc.before.arp[1]);
+                regs.Set<arp2>(tc.before.arp[2]); regs.Set<arp3>(tc.before.arp[3]);
+                vlayout::pack_regs(regs, pre.data());
+                verif_mem_observer = nullptr;
+                for (u16 off = 0; off < TestSpaceSize; ++off) {
+                    m.mi.DataWrite(TestSpaceX + off, tc.before.test_space_x[off]);
+                    m.mi.DataWrite(TestSpaceY + off, tc.before.test_space_y[off]);
+                }
+            } else
             random_state(rng, pre.data());
             u16 x = rng.chance(1, 2) ? rng.edge16() : rng.u16();
+            unsigned opw = w;
+            if (gen) { x = tc.expand; opw = tc.opcode; }
             u32 pc = (u32)pre[vlayout::I_pc];
             // relative branches add a signed 7-bit offset to the 32-bit pc without masking: keep the
             // start address away from both ends of the 18-bit program space (well-formed states of C01;
@@ -163,14 +215,14 @@ int main(int argc, char** argv) {
             if (wild) {   // C18: the ends of the program space and non-zero program pages are reachable by a guest
                 if (rng.chance(1, 4)) { static const u32 e[] = {0, 1, 2, 0x3F, 0x40, 0x3FFBF, 0x3FFC0, 0x3FFFD, 0x3FFFE, 0x3FFFF}; pc = pre[vlayout::I_pc] = e[rng.below(10)]; }
                 if (rng.chance(1, 4)) pre[vlayout::I_prpage] = 1 + rng.below(15);
-            } else {
+            } else if (!gen) {
             if (pc < 0x80) pc = pre[vlayout::I_pc] = 0x80 + rng.below(64);
             if (pc > 0x3FF00) pc = pre[vlayout::I_pc] = 0x3FF00 - rng.below(64);
             }
             vlayout::unpack_regs(pre.data(), m.regs);
             // latches
             int lat[7];
-            bool want_lat = rng.chance(1, 8);
+            bool want_lat = !gen && rng.chance(1, 8);
             for (int i = 0; i < 3; ++i) { lat[i] = want_lat ? rng.below(2) : 0; TeakraVerifAccess::interrupt_pending(m.interp)[i] = lat[i] != 0; }
             lat[3] = want_lat ? rng.below(2) : 0;
             TeakraVerifAccess::vinterrupt_pending(m.interp) = lat[3] != 0;
@@ -183,7 +235,7 @@ int main(int argc, char** argv) {
             verif_mem_observer = nullptr;
             u32 fa = pc | ((u32)pre[vlayout::I_prpage] << 18);   // where the interpreter will fetch from
             u16 old0 = 0, old1 = 0;
-            if (fa < 0x40000) m.sm.WriteWord(fa, (u16)w);
+            if (fa < 0x40000) m.sm.WriteWord(fa, (u16)opw);
             if (fa + 1 < 0x40000) m.sm.WriteWord(fa + 1, x);
             m.log.acc.clear(); m.log.oob = false;
             verif_mem_observer = &m.log;
@@ -202,8 +254,9 @@ int main(int argc, char** argv) {
 
             o.begin();
             o.str("e", "I");
-            o.num("op", w);
-            { vrec::Rec rk; try { auto mk = Decode<vrec::Rec>((u16)w); mk.call(rk, (u16)w, 0); } catch (...) { rk.key = "ambiguous/"; } o.str("key", rk.key.c_str()); }
+            o.num("op", opw);
+            if (gen) o.num("gen", 1);
+            { vrec::Rec rk; try { auto mk = Decode<vrec::Rec>((u16)opw); mk.call(rk, (u16)opw, 0); } catch (...) { rk.key = "ambiguous/"; } o.str("key", rk.key.c_str()); }
             o.num("x", x);
             o.raw("pre", vh::arr(pre.begin(), pre.end()));
             o.raw("lat", vh::arr(lat, lat + 7));
